@@ -94,7 +94,9 @@ pub fn literal_accept(ty: &Ty, text: &str) -> Accept {
 fn trim_variants(a: Accept) -> Accept {
     let mut vals = Vec::new();
     for v in &a.vals {
-        match v { RV::Text(s) => { vals.push(RV::Text(s.trim().to_owned())); vals.push(RV::Text(s.trim_matches(|c: char| c.is_ascii_whitespace()).to_owned())); } other => vals.push(other.clone()) }
+        // "whitespace" = the Unicode White_Space property (what `str::trim` and the regex class `\s` mean by it): blanks, tabs,
+        // line terminators, no-break and ideographic spaces alike
+        match v { RV::Text(s) => { vals.push(RV::Text(s.trim().to_owned())); } other => vals.push(other.clone()) }
     }
     Accept::of(vals, a.situation)
 }
